@@ -297,15 +297,15 @@ Section Skeleton.
 End Skeleton.
 
 (* ------------------------------------------------------------------ loop skeletons of the other drivers with normalize_factors *)
-(* non_negative_tucker / non_negative_tucker_hals (scale carried by the core, tucker_normalize), as the code is:
-     state <- initialize_tucker                 (never normalised)
+(* non_negative_tucker / non_negative_tucker_hals (scale carried by the core, tucker_normalize), after the repair 1c1a684:
+     state <- initialize_tucker ; [normalise if requested]
      for iteration in range(n_iter_max):
          sweep
-         if [tol and] iteration > 1 and <converged>: break          (BEFORE the normalisation)
+         if [tol and] iteration > 1 and <converged>: [normalise if requested]; break
          [normalise if requested]
      return state
    parafac2:
-     state <- initialize_decomposition          (never normalised)
+     state <- initialize_decomposition ; [normalise if requested]
      for iteration in range(n_iter_max):
          sweep ; [normalise if requested]
          if tol and iteration >= 1 and <converged>: break
@@ -318,12 +318,12 @@ Section Skeleton2.
     match fuel with
     | O => s
     | S fuel' =>
-        let s1 := sweep s in
+        let s1 := norm_if St normalise nf (sweep s) in
         if tol_set && (2 <=? it) && hd false decisions then s1
-        else nt_loop nf tol_set (S it) fuel' (tl decisions) (norm_if St normalise nf s1)
+        else nt_loop nf tol_set (S it) fuel' (tl decisions) s1
     end.
   Definition nt_run (nf tol_set : bool) (n_iter_max : nat) (decisions : list bool) (s0 : St) : St :=
-    nt_loop nf tol_set 0 n_iter_max decisions s0.
+    nt_loop nf tol_set 0 n_iter_max decisions (norm_if St normalise nf s0).
   Fixpoint p2_loop (nf tol_set : bool) (it fuel : nat) (decisions : list bool) (s : St) : St :=
     match fuel with
     | O => s
@@ -333,21 +333,21 @@ Section Skeleton2.
         else p2_loop nf tol_set (S it) fuel' (tl decisions) s1
     end.
   Definition p2_run (nf tol_set : bool) (n_iter_max : nat) (decisions : list bool) (s0 : St) : St :=
-    p2_loop nf tol_set 0 n_iter_max decisions s0.
-  (* candidate repair (build/fix_candidates/C08_tucker_parafac2_normalize_every_exit.diff): the initialisation is
-     normalised when requested, and the convergence exit of the Tucker drivers normalises before the break *)
-  Fixpoint nt_loop_fix (nf tol_set : bool) (it fuel : nat) (decisions : list bool) (s : St) : St :=
+    p2_loop nf tol_set 0 n_iter_max decisions (norm_if St normalise nf s0).
+  (* the control flow before 1c1a684, kept for the regression witnesses: the initialisation was never normalised, and the
+     convergence break of the Tucker drivers preceded the normalisation *)
+  Fixpoint nt_loop_old (nf tol_set : bool) (it fuel : nat) (decisions : list bool) (s : St) : St :=
     match fuel with
     | O => s
     | S fuel' =>
-        let s1 := norm_if St normalise nf (sweep s) in
+        let s1 := sweep s in
         if tol_set && (2 <=? it) && hd false decisions then s1
-        else nt_loop_fix nf tol_set (S it) fuel' (tl decisions) s1
+        else nt_loop_old nf tol_set (S it) fuel' (tl decisions) (norm_if St normalise nf s1)
     end.
-  Definition nt_run_fix (nf tol_set : bool) (n_iter_max : nat) (decisions : list bool) (s0 : St) : St :=
-    nt_loop_fix nf tol_set 0 n_iter_max decisions (norm_if St normalise nf s0).
-  Definition p2_run_fix (nf tol_set : bool) (n_iter_max : nat) (decisions : list bool) (s0 : St) : St :=
-    p2_loop nf tol_set 0 n_iter_max decisions (norm_if St normalise nf s0).
+  Definition nt_run_old (nf tol_set : bool) (n_iter_max : nat) (decisions : list bool) (s0 : St) : St :=
+    nt_loop_old nf tol_set 0 n_iter_max decisions s0.
+  Definition p2_run_old (nf tol_set : bool) (n_iter_max : nat) (decisions : list bool) (s0 : St) : St :=
+    p2_loop nf tol_set 0 n_iter_max decisions s0.
 End Skeleton2.
 
 (* ------------------------------------------------------------------ the skeleton run on event traces *)
